@@ -614,7 +614,12 @@ def _check_sc(ctx, label, dt, ba, shape, pi, ts, cs, idx, layout='c', big_values
             kw['issuer_of_container_identifier'] = hd.IssuerOfIdentifier('iss')
     if idx % 3 == 0:
         kw['pixel_spacing'] = (0.5, 0.25)
-    st, sc = _try(SCImage, a, pi, ba, cs, hd.UID(), hd.UID(), 1, hd.UID(), 1, 'm', transfer_syntax_uid=ts, **kw)
+    if label == 'random' and idx % 3 == 1:
+        from gen.images import base_dataset
+        ref = base_dataset('1.2.840.10008.5.1.4.1.1.2', EXPLICIT)
+        st, sc = _try(SCImage.from_ref_dataset, ref, a, pi, ba, cs, hd.UID(), 1, hd.UID(), 1, 'm', transfer_syntax_uid=ts, **kw)
+    else:
+        st, sc = _try(SCImage, a, pi, ba, cs, hd.UID(), hd.UID(), 1, hd.UID(), 1, 'm', transfer_syntax_uid=ts, **kw)
     case = {'kind': 'sc', 'label': label, 'dtype': dt, 'ba': ba, 'shape': list(shape), 'pi': pi, 'ts': ts, 'cs': cs, 'idx': idx,
             'layout': layout, 'big_values': big_values}
     valid = _sc_valid(dt, ba, shape, pi, ts)
@@ -713,7 +718,7 @@ def _sc_cells(ctx, reqs, pending):
 
 
 def _sc_random(ctx, reqs, pending):
-    n = ctx.n(150, 3000)
+    n = ctx.n(150, 8000)
     for i in range(n):
         r = ctx.rng('sc', i)
         ts = r.choice([EXPLICIT, IMPLICIT, RLE, JLS])
@@ -812,7 +817,7 @@ def run(ctx):
     warnings.simplefilter('ignore')
     reqs, pending = [], []
     _pm_refusals(ctx, reqs, pending)
-    for idx in range(ctx.n(60, 900)):
+    for idx in range(ctx.n(60, 2500)):
         _check_pm(ctx, idx, reqs, pending)
     _sc_cells(ctx, reqs, pending)
     _sc_random(ctx, reqs, pending)
